@@ -5,8 +5,12 @@ spec -> code : every state TLC dumps for T4Scan.tla (a well-formed mono / PARA /
                written to a file and given to parse.Parser; outcome, stored editions, blocks and times are
                compared with what TLC computed (`out`, `st`, `alt`, and the state of the complete listing).
                The counterexamples of the W_InterpretedCut* witnesses are replayed the same way.
+               Listing layouts: mono and parallel jobs, with / without "Edition after batch number" line, 1-3
+               editions; in parallel jobs several response blocks per edition, each with its own "number of batches
+               used" (greatest first / in the middle / last, low counts shared by the editions).
 code -> spec : real listings are cut at byte offsets (all offsets of the small ones, a seeded sample inside the
-               scanner-interpreted lines of the big ones), every prefix is parsed by the real Parser under a
+               scanner-interpreted lines of the big ones and of synthetic 2-3-edition parallel-job listings assembled
+               from the shipped one-edition ones, see synth_bytes), every prefix is parsed by the real Parser under a
                watchdog, interleaved with parses of complete listings; the observations are validated by TLC
                against T4ScanTrace.tla (property predicate + conformance), and the datasets / metadata / times of
                every successfully parsed edition are compared with those of the complete listing.
@@ -32,6 +36,7 @@ INVS = ['PrefixAgrees', 'StoredAfterEndFlag', 'TimesKeyedByStored', 'CompleteRec
 PROPS = ['StoredIsStable']
 WITNESSES = ['W_TwoEditions', 'W_ParaStored', 'W_PartialStored', 'W_CutErrors', 'W_InterpretedCutWrongTime',
              'W_InterpretedCutNotATime', 'W_PrefixKeepsFirstEdition']
+PARA_WITNESSES = ['W_ParaLayoutEdLine', 'W_ParaLayoutNoEdLine']     # on the parallel-job layouts
 WATCHDOG = 60.0          # seconds per Parser call; a listing of 3 MB is scanned in 0.1 s
 DATA_DIRS = ('tests/eponine/tripoli4/data', 'doc/src/examples')
 NOT_A_TIME = -1
@@ -524,7 +529,11 @@ def render(lines):
             blk = _response_block()
             pre, line, post = blk[:-1], blk[-1], ['\n', '\n']
         elif kind == 'used':
-            pre, post = _response_block()[:-1], ['\n', '\n']
+            # one response block per "number of batches used" line; its scores depend on its place in the listing
+            # (two editions of a job never print the same numbers)
+            score = '1.4147%02de+01' % (len(chunks) % 100)
+            pre, post = [x.replace('1.414729e+01', score) for x in _response_block()[:-1]], ['\n', '\n']
+            line = line.replace('1.414729e+01', score)
         elif kind in ('simtime', 'exptime') and in_block:
             in_block = False
             pre, post = ['\n'], ['\n']
@@ -617,7 +626,10 @@ def _model_proj(state_scan, verdict_open, ok_set, chunks, cut_at=None, cut='none
 _REF_CACHE = {}
 
 
-def run_model_case(lines, pos, cut, tmp):
+_PARSE_MEMO = {}
+
+
+def run_model_case(lines, pos, cut, tmp, memo=False):
     """Render and run one (listing, prefix, cut) -> dict with the implementation's projection and, when the
     prefix parses, the comparison of every edition with the complete rendered listing."""
     chunks = render(lines)
@@ -644,7 +656,7 @@ def run_model_case(lines, pos, cut, tmp):
     ref = _REF_CACHE[rkey]
     with open(tmp, 'w', encoding='utf-8') as f:
         f.write(text)
-    impl = dict(outcome=None, exc=None, where=None, keys=[], times=[], blocks={}, ok=[], diff='')
+    impl = dict(outcome=None, exc=None, where=None, keys=[], times=[], blocks={}, ok=[], diff='', nparse=1)
     outcome, parser, exc, where = open_listing(tmp)
     impl.update(outcome=outcome, exc=exc, where='scan:%s' % where if exc else None)
     if parser is not None:
@@ -653,7 +665,18 @@ def run_model_case(lines, pos, cut, tmp):
                     normalend=bool(sc.normalend), warnings=int(sc.countwarnings), errors=int(sc.counterrors))
         for n in impl['keys']:
             impl['blocks'][n] = sc[n]
-            status, pres, pexc, pwhere = parse_edition(parser, n)
+            # an edition stored earlier with the block, times and flags it had in a previous case of this process
+            # is not re-parsed (same text through the same grammar); the edition stored last always is
+            sig = (n, sc[n], tuple(t for t in impl['times'] if t[1] == n), impl['para'], impl['partial'],
+                   impl['normalend'], impl['warnings'], impl['errors'], rkey)
+            if memo and n != impl['keys'][-1] and sig in _PARSE_MEMO:
+                status, pres, pexc, pwhere = _PARSE_MEMO[sig]
+            else:
+                status, pres, pexc, pwhere = parse_edition(parser, n)
+                impl['nparse'] += 1
+                if len(_PARSE_MEMO) > 64:
+                    _PARSE_MEMO.clear()
+                _PARSE_MEMO[sig] = (status, pres, pexc, pwhere)
             if status == 'other':
                 impl.update(outcome='Other', exc=pexc, where='parse:%s' % pwhere)
             elif status == 'ok':
@@ -667,21 +690,55 @@ def run_model_case(lines, pos, cut, tmp):
     return impl, chunks
 
 
-def judge_model_case(impl, chunks, st, alt, out, final_st, final_out, kind, cut, pos=None):
-    """-> (finding | None, conforms: bool).  The oracle is what TLC computed (st/alt/out of this state and of the
-    state of the complete listing)."""
+def expectation(final_st, final_out):
+    """What TLC computed for the COMPLETE listing, in JSON-able form (stored in the replay case: the oracle of a
+    replay is still TLC's value): outcome, stored batch numbers, parsable editions, line ids of every block, times."""
+    if final_out['open'] != 'Ok':
+        return dict(outcome='ParserError')
+    keys = [int(k) for k in final_st['keys']]
+    return dict(outcome='Ok', keys=keys, ok=sorted(int(x) for x in final_out['ok']),
+                lines={str(n): [int(x) for x in final_st['blocks'][n]['lines']] for n in keys},
+                times=sorted([k, int(b), int(t)] for k, f in final_st['times'].items() for b, t in dict(f).items()))
+
+
+def layout_suffix(lines):
+    """suffix of the finding key naming the listing layout, '' for the layouts of the first family (mono listings;
+    parallel listings without edition line whose last "number of batches used" is the greatest, at most 2 editions)."""
+    if not any(k == 'tasks' for k, _ in lines):
+        return ''
+    eds, cur = [], None
+    for k, n in lines:
+        if k == 'results':
+            cur = dict(used=[], edline=False)
+        elif cur is not None and k == 'used' and n is not None:
+            cur['used'].append(n)
+        elif cur is not None and k == 'edition':
+            cur['edline'] = True
+        elif cur is not None and k in TIME_KEYS.values():
+            eds.append(cur)
+            cur = None
+    if any(e['used'] and e['used'][-1] != max(e['used']) for e in eds):
+        return '/para-last-used-not-greatest'
+    if any(e['edline'] for e in eds):
+        return '/para-edition-line'
+    return '/para-3-editions' if len(eds) >= 3 else ''
+
+
+def property_finding(impl, chunks, exp, kind, cut, pos):
+    """(key, what) | None: the property-level verdict on one rendered (listing, prefix, cut).  `exp` is TLC's
+    scan of the complete listing (expectation())."""
     obs = dict(outcome=impl['outcome'], exc=impl['exc'], where=impl['where'], diff=impl['diff'], full=(kind, None),
                cut=cut, keys=impl['keys'], eds=[])
     fnd = finding_of(obs)
     if fnd is None and impl['outcome'] == 'Ok':
-        fin = _model_proj(final_st, final_out['open'], final_out['ok'], chunks)
-        fin_cut = _model_proj(final_st, final_out['open'], final_out['ok'], chunks, None if cut == 'none' else pos + 1, cut)
-        ftimes = {(k, b): t for k, b, t in fin.get('times', [])}
+        cut_at = None if cut == 'none' else pos + 1
+        ftimes = {(k, b): t for k, b, t in exp.get('times', [])}
         for n in impl['ok']:
             why = None
-            if fin['outcome'] != 'Ok' or n not in fin['ok']:
+            if exp['outcome'] != 'Ok' or n not in exp['ok']:
                 why = 'edition %d is not an edition of the complete listing' % n
-            elif impl['blocks'][n] not in (fin['blocks'][n], fin_cut['blocks'][n]):
+            elif impl['blocks'][n] not in (block_text(chunks, exp['lines'][str(n)]),
+                                           block_text(chunks, exp['lines'][str(n)], cut_at, cut)):
                 # (same lines: the last one may be the unterminated line of the prefix)
                 why = 'block of edition %d is not the block of the complete listing' % n
             else:
@@ -692,6 +749,13 @@ def judge_model_case(impl, chunks, st, alt, out, final_st, final_out, kind, cut,
                 fnd = ('C11/edition-differs/%s/%s:%s' % ('time' if why.startswith('time') else 'block', kind, cut),
                        'file ends inside a %r line (%s): parsing succeeds but %s (T4Scan!Agrees false)' % (kind, cut, why))
                 break
+    return fnd
+
+
+def judge_model_case(impl, chunks, st, alt, out, exp, kind, cut, pos=None):
+    """-> (finding | None, conforms: bool).  The oracle is what TLC computed (st/alt/out of this state and of the
+    state of the complete listing)."""
+    fnd = property_finding(impl, chunks, exp, kind, cut, pos)
     conforms = False
     for scan_state, op, ok in ((st, out['open'], out['ok']), (alt, out['altOpen'], out['altOk'])):
         m = _model_proj(scan_state, op, ok, chunks, None if cut == 'none' else pos + 1, cut)
@@ -733,13 +797,110 @@ def _tmp_path():
 
 _LISTINGS = {}
 
+# ----------------------------------------------------------------------------------------------
+# synthetic listings of parallel jobs with several editions (code -> spec).  Name (replayable):
+#   synth|<shipped one-edition PARA listing>|<editions>|<0/1 "Edition after batch number" line>|<pattern>|<seed>|<dt>
+# The edition of the shipped listing is repeated; in edition e (batch number B_e = e x the count of the shipped one)
+# the "number of batches used" lines of the response blocks carry, according to <pattern>,
+#   uniform  B_e everywhere
+#   discard  B_e, except the last block (a score that discards its first batches): the count of the shipped listing,
+#            the same in every edition
+#   mixed    seeded values among {shipped count, B_(e-1), B_e - 1, B_e}, B_e at least once
+# the scores of the integrated results and the elapsed times differ from edition to edition; the simulation time grows
+# by <dt> seconds per edition (0: a short job, every edition prints the same simulation time).
+SYNTH = 'synth|'
+_FLAGS_B = tuple(flag.encode() for flag, _ in END_FLAGS)
+_USED_B = re.compile(rb'(number of batches used:\s*)(\d+)')
+_SCORE_B = re.compile(rb'(\d\.\d{5})(\d)(e[+-]\d\d)')
+_TRAIL_INT_B = re.compile(rb'(\d+)(\s*)\Z')
+
+
+def synth_bases():
+    """shipped listings of parallel jobs with exactly one edition."""
+    out = []
+    for _, rel in listing_files():
+        with open(os.path.join(core.REPO, rel), 'rb') as f:
+            data = f.read()
+        if b'number of tasks is' in data and data.count(b'RESULTS ARE GIVEN') == 1 and b'number of batches used' in data:
+            out.append(rel)
+    return out
+
+
+def synth_names(bases, quick):
+    combos = ([(2, 0, 'discard', 1, 0), (3, 0, 'mixed', 1, 113), (3, 1, 'mixed', 2, 0), (2, 1, 'uniform', 1, 113)] if quick else
+              [(ne, ed, pat, seed, (0, 113)[(ne + ed + seed) % 2]) for ne in (2, 3) for ed in (0, 1)
+               for pat, seeds in (('uniform', (1,)), ('discard', (1, 2)), ('mixed', (1, 2, 3, 4))) for seed in seeds])
+    return ['%s%s|%d|%d|%s|%d|%d' % (SYNTH, b, ne, ed, pat, seed, dt) for b in bases for ne, ed, pat, seed, dt in combos]
+
+
+def synth_bytes(rel):
+    _, base, ne, edline, pattern, seed, dt = rel.split('|')
+    ne, edline, seed, dt = int(ne), int(edline), int(seed), int(dt)
+    with open(os.path.join(core.REPO, base), 'rb') as f:
+        lines = f.read().splitlines(keepends=True)
+
+    def is_end(x):
+        return any(flag in x for flag in _FLAGS_B)
+    i_init = next(i for i, x in enumerate(lines) if b'initialization time' in x)
+    i_res = next(i for i, x in enumerate(lines) if b'RESULTS ARE GIVEN' in x)
+    start = i_res - 2 if i_res >= 2 and lines[i_res - 2].startswith(b'*' * 20) else i_res
+    stop = next(i for i, x in enumerate(lines) if i > i_res and is_end(x))
+    more = True
+    while more:                                    # "elapsed time" follows "simulation time" in parallel jobs
+        more = False
+        for k in range(stop + 1, min(stop + 4, len(lines))):
+            if is_end(lines[k]):
+                stop, more = k, True
+                break
+    header, pre, edition, tail = lines[:i_init + 1], lines[i_init + 1:start], lines[start:stop + 1], lines[stop + 1:]
+    used = [i for i, x in enumerate(edition) if _USED_B.search(x)]
+    count0 = max(int(_USED_B.search(edition[i]).group(2)) for i in used)
+    out = list(header)
+    for e in range(1, ne + 1):
+        b_e = count0 * e
+        rng = random.Random(seed * 7 + e)
+        if pattern == 'uniform' or len(used) < 2:
+            vals = [b_e] * len(used)
+        elif pattern == 'discard':
+            vals = [b_e] * (len(used) - 1) + [count0]
+        else:
+            pool = [count0, b_e - 1, b_e] + ([count0 * (e - 1)] if e > 1 else [])
+            vals = [rng.choice(pool) for _ in used]
+            vals[-1] = rng.choice([count0, count0, vals[-1]])
+            vals[rng.randrange(len(used) - 1)] = b_e
+        body = list(pre) + list(edition)
+        for i, v in zip(used, vals):
+            x = _USED_B.sub(lambda m, v=v: m.group(1) + str(v).encode(), body[len(pre) + i], count=1)
+            body[len(pre) + i] = _SCORE_B.sub(
+                lambda m: m.group(1) + str((int(m.group(2)) + e - 1) % 10).encode() + m.group(3), x, count=1)
+        for i, x in enumerate(body):
+            if is_end(x) and e > 1:
+                step = 113 if b'elapsed time' in x else dt
+                body[i] = _TRAIL_INT_B.sub(lambda m, k=step: str(int(m.group(1)) + k * (e - 1)).encode() + m.group(2), x, count=1)
+        if edline:
+            at = next((i for i, x in enumerate(body) if i > len(pre) + (i_res - start) and x.startswith(b'*' * 70)),
+                      len(pre) + (i_res - start) + 2)
+            body[at:at] = [b' Edition after batch number : %d\n' % b_e, b'\n', b'\n', b'\n']
+        out += body
+    return b''.join(out + tail)
+
+
+def listing_data(rel):
+    if rel.startswith(SYNTH):
+        return synth_bytes(rel)
+    with open(os.path.join(core.REPO, rel), 'rb') as f:
+        return f.read()
+
 
 def _listing(rel):
     if rel not in _LISTINGS:
+        data = listing_data(rel)
         path = os.path.join(core.REPO, rel)
-        with open(path, 'rb') as f:
-            lst = Listing(rel, f.read(), path)
-        _LISTINGS[rel] = lst
+        if rel.startswith(SYNTH):       # the complete synthetic listing, in the scratch directory of this process
+            path = os.path.join(os.path.dirname(_tmp_path()), 'synth-%s.res' % hashlib.sha1(rel.encode()).hexdigest()[:12])
+            with open(path, 'wb') as f:
+                f.write(data)
+        _LISTINGS[rel] = Listing(rel, data, path)
     return _LISTINGS[rel]
 
 
@@ -790,16 +951,19 @@ def _work_offsets(task):
 def _work_states(task):
     """task = list of (lines, [(pos, cut, st, alt, out)...], final_st, final_out) -> findings, counts."""
     tmp = _tmp_path()
-    res = dict(n=0, findings=[], drift=[], ok=0, distinct=[])
+    res = dict(n=0, nparse=0, findings=[], drift=[], ok=0, distinct=[])
     for lines, states, final_st, final_out in task:
+        exp = expectation(final_st, final_out)
+        suffix = layout_suffix(lines)
         for pos, cut, st, alt, out in states:
-            impl, chunks = run_model_case(lines, pos, cut, tmp)
+            impl, chunks = run_model_case(lines, pos, cut, tmp, memo=True)
+            res['nparse'] += impl['nparse']
             kind = lines[pos][0] if pos < len(lines) else 'eof'
-            fnd, conforms = judge_model_case(impl, chunks, st, alt, out, final_st, final_out, kind, cut, pos)
+            fnd, conforms = judge_model_case(impl, chunks, st, alt, out, exp, kind, cut, pos)
             res['n'] += 1
-            case = dict(source='model', lines=[list(x) for x in lines], pos=pos, cut=cut)
+            case = dict(source='model', lines=[list(x) for x in lines], pos=pos, cut=cut, expect=exp)
             if fnd:
-                res['findings'].append((fnd[0], fnd[1], case))
+                res['findings'].append((fnd[0], suffix, fnd[1], case))
             elif not conforms and len(res['drift']) < 2:
                 res['drift'].append('T4Scan state not reproduced by the scanner on %s: implementation %s' % (
                     case, {k: impl[k] for k in ('outcome', 'keys', 'times', 'ok')}))
@@ -832,11 +996,14 @@ def replay_case(case):
             ' (%s from %s)' % (obs['exc'], obs['where']) if obs['exc'] else '', [(e['n'], e['ok']) for e in obs['eds']])
         return fnd is None, detail + (' -- ' + fnd[1] if fnd else '')
     lines = [(k, n) for k, n in case['lines']]
-    impl, _ = run_model_case(lines, case['pos'], case['cut'], _tmp_path())
+    impl, chunks = run_model_case(lines, case['pos'], case['cut'], _tmp_path())
     kind = lines[case['pos']][0] if case['pos'] < len(lines) else 'eof'
-    obs = dict(outcome=impl['outcome'], exc=impl['exc'], where=impl['where'], diff=impl['diff'], full=(kind, None),
-               cut=case['cut'], keys=impl['keys'], eds=[])
-    fnd = finding_of(obs)
+    if case.get('expect'):          # TLC's scan of the complete listing, recorded with the case
+        fnd = property_finding(impl, chunks, case['expect'], kind, case['cut'], case['pos'])
+    else:
+        obs = dict(outcome=impl['outcome'], exc=impl['exc'], where=impl['where'], diff=impl['diff'], full=(kind, None),
+                   cut=case['cut'], keys=impl['keys'], eds=[])
+        fnd = finding_of(obs)
     detail = 'rendered listing %s cut at line %d (%s): outcome %s%s, editions parsed %s' % (
         [k for k, _ in lines], case['pos'] + 1, case['cut'], impl['outcome'],
         ' (%s from %s)' % (impl['exc'], impl['where']) if impl['exc'] else '', impl['ok'])
@@ -846,8 +1013,9 @@ def replay_case(case):
 # ----------------------------------------------------------------------------------------------
 # the check
 
-def _consts(max_lines, max_editions, modes, rich):
-    return {'MaxLines': max_lines, 'MaxEditions': max_editions, 'Modes': frozenset(modes), 'Rich': rich}
+def _consts(max_lines, max_editions, modes, rich, min_editions=1):
+    return {'MaxLines': max_lines, 'MaxEditions': max_editions, 'MinEditions': min_editions, 'Modes': frozenset(modes),
+            'Rich': rich}
 
 
 def _lines_of(full):
@@ -866,8 +1034,7 @@ def listing_files():
 def _interpreted_offsets(rel, rng, budget):
     """offsets inside the scanner-interpreted lines of a listing: every byte of the lines of the rare kinds, and of
     a seeded sample of the (many) batch-number lines, thinned to `budget`."""
-    with open(os.path.join(core.REPO, rel), 'rb') as f:
-        lst = Listing(rel, f.read())
+    lst = Listing(rel, listing_data(rel))
     by_kind = {}
     for i in lst.sig:
         by_kind.setdefault(lst.recs[i][0], []).append(i)
@@ -909,13 +1076,17 @@ def run_c11(ctx):
     _t('start')
     ctx.rule('spec->code: every state of T4Scan.tla (well-formed listing x prefix x cut class of the next line) rendered '
              'with lines of the example listings and parsed by parse.Parser; code->spec: byte-offset prefixes of the '
-             'example listings parsed by parse.Parser and validated by TLC against T4ScanTrace.tla. distinct_nontrivial '
+             'example listings (and of synthetic multi-edition parallel-job listings built from them, with per-edition '
+             '"number of batches used" counts that differ inside an edition and coincide across editions) '
+             'parsed by parse.Parser and validated by TLC against T4ScanTrace.tla. distinct_nontrivial '
              'counts distinct (sequence of line kinds of the prefix, cut class, outcome, number of editions parsed) for '
              'rendered listings and distinct (listing, complete significant lines, unterminated line, observation) for '
              'real listings, excluding prefixes that end before the initialisation time.')
     ctx.assume('the abstraction function classify() (substring tests copied from scan.py) is trusted')
     ctx.assume('an edition whose scanned block, times and partial flag are those of the previous offset is re-parsed '
                'only on a seeded sample; every prefix is scanned (Parser(path)) for real')
+    ctx.assume('rendered listings: an edition stored before the last one is re-parsed only when its block, times or the '
+               'run flags differ from those of an earlier case of the same process; the last stored edition always is')
     ctx.assume('results of an edition = response lists (datasets, metadata) + batch-level data present in both parses')
     signal.signal(signal.SIGALRM, _on_alarm)
     wd = tlc.workdir('c11')
@@ -923,21 +1094,54 @@ def run_c11(ctx):
     modes = ['mono', 'para', 'fatal']
 
     # ---- T4Scan: exhaustive run (invariants + action property), witnesses in parallel
-    big = _consts(ctx.pick(10, 13), 2, modes, True)
+    big = _consts(ctx.pick(10, 13), 3, modes, True)
     cfg = tlc.write_cfg(os.path.join(wd, 'big.cfg'), constants=big, invariants=INVS, properties=PROPS, deadlock=False)
-    small = _consts(ctx.pick(9, 11), 2, modes, ctx.pick(False, True))
+    small = _consts(ctx.pick(9, 11), 3, modes, ctx.pick(False, True))
     cfg_small = tlc.write_cfg(os.path.join(wd, 'small.cfg'), constants=small, invariants=INVS, deadlock=False)
     dump = os.path.join(wd, 'small')
+    # the layouts of parallel jobs (with / without edition line, 1-3 editions, several "number of batches used" per
+    # edition, greatest first / in the middle / last, low counts shared by the editions): listings are longer
+    # (the rich family of parallel-job listings alone is model-checked in the thorough tier only; the thin one, which is
+    # replayed, always)
+    para_big = _consts(17, 3, ['para'], True, 2)
+    cfg_pbig = tlc.write_cfg(os.path.join(wd, 'parabig.cfg'), constants=para_big, invariants=INVS, properties=PROPS, deadlock=False)
+    para_small = _consts(24, 3, ['para'], False, 2)      # 24: the longest listing of the thin family
+    cfg_psmall = tlc.write_cfg(os.path.join(wd, 'parasmall.cfg'), constants=para_small, invariants=INVS, properties=PROPS,
+                               deadlock=False)
+    dump_para = os.path.join(wd, 'parasmall')
     wcfgs = [(w, tlc.write_cfg(os.path.join(wd, w + '.cfg'), invariants=[w], deadlock=False,
                                constants=small if w.startswith('W_InterpretedCut') else _consts(10, 2, modes, True)))
              for w in WITNESSES]
-    with ThreadPoolExecutor(max_workers=4) as ex:
+    wcfgs += [(w, tlc.write_cfg(os.path.join(wd, w + '.cfg'), invariants=[w], deadlock=False, constants=para_small))
+              for w in PARA_WITNESSES]
+    by_full, seen = {}, set()
+
+    def read(name, res, dmp):
+        """check one replayed run and read its dump (while the other TLC runs go on)"""
+        ctx.tlc(res, name)
+        if not res.ok:
+            raise tlc.MachineryError('%s: %s\n%s' % (name, res.violation, res.out[-1500:]))
+        tlc.check_coverage(res, ['Feed', 'CutHere'], name)
+        for st in tlc.read_dump(dmp):
+            k = (st['full'], int(st['pos']), str(st['cut']))
+            if k not in seen:                 # a listing may be in both replayed families
+                seen.add(k)
+                by_full.setdefault(st['full'], []).append(st)
+        os.remove(dmp + '.dump')
+    with ThreadPoolExecutor(max_workers=ctx.pick(4, 5)) as ex:
         fut_big = ex.submit(tlc.run, SPEC, cfg, workers=6)
         fut_small = ex.submit(tlc.run, SPEC, cfg_small, workers=4, dump=dump)
+        fut_psmall = ex.submit(tlc.run, SPEC, cfg_psmall, workers=4, dump=dump_para)
+        fut_pbig = ex.submit(tlc.run, SPEC, cfg_pbig, workers=4) if not ctx.quick else None
         fut_w = [(w, ex.submit(tlc.run, SPEC, c, workers=2, coverage=False)) for w, c in wcfgs]
-        res_big, res_small = fut_big.result(), fut_small.result()
+        read('T4Scan/replayed', fut_small.result(), dump)
+        read('T4Scan/replayed-para', fut_psmall.result(), dump_para)
+        exhaustive = [('T4Scan/exhaustive', fut_big.result())]
+        if fut_pbig is not None:
+            exhaustive.append(('T4Scan/exhaustive-para', fut_pbig.result()))
         res_w = [(w, f.result()) for w, f in fut_w]
-    for name, res in (('T4Scan/exhaustive', res_big), ('T4Scan/replayed', res_small)):
+    _t('tlc model runs, dumps read')
+    for name, res in exhaustive:
         ctx.tlc(res, name)
         if not res.ok:
             raise tlc.MachineryError('%s: %s\n%s' % (name, res.violation, res.out[-1500:]))
@@ -949,11 +1153,7 @@ def run_c11(ctx):
         if w.startswith('W_InterpretedCut'):
             witness_states.append((w, res.trace[-1][1]))
 
-    # ---- spec -> code: replay the dump
-    by_full = {}
-    for st in tlc.read_dump(dump):
-        by_full.setdefault(st['full'], []).append(st)
-    os.remove(dump + '.dump')
+    # ---- spec -> code: replay the dumps
     tasks = []
     for full, states in by_full.items():
         lines = _lines_of(full)
@@ -971,7 +1171,7 @@ def run_c11(ctx):
     rng.shuffle(tasks)
     chunks = [tasks[i::NPROC * 4] for i in range(NPROC * 4)]
     n_states = n_drift = 0
-    _t('tlc model runs + dump read')
+    _t('replay tasks built')
     with _pool() as pool:
         model_results = pool.map(_work_states, [c for c in chunks if c])
         _t('model states replayed')
@@ -983,17 +1183,21 @@ def run_c11(ctx):
         jobs = []
         big_limit = ctx.pick(200000, 10 ** 9)       # quick: the listings above 200 kB are left to the thorough tier
         files = [(size, rel) for size, rel in files if size <= big_limit]
+        n_shipped = len(files)
+        # + synthetic listings of parallel jobs with 2-3 editions assembled from the shipped one-edition ones
+        files += [(len(synth_bytes(rel)), rel) for rel in synth_names(synth_bases(), ctx.tier == 'quick')]
+        sizes = {rel: size for size, rel in files}
         for size, rel in files:
-            if size <= small_limit:
+            if size <= small_limit and not rel.startswith(SYNTH):
                 offs = list(range(0, size + 1))
             else:
-                budget = ctx.pick(120, 1500) if size < 600000 else ctx.pick(30, 200)
+                budget = ctx.pick(150, 2500) if rel.startswith(SYNTH) else ctx.pick(120, 1500) if size < 600000 else ctx.pick(30, 200)
                 offs = _interpreted_offsets(rel, random.Random(ctx.seed * 7919 + size), budget)
             nchunk = max(1, min(NPROC * 2, len(offs) // 1500 + 1))
             step = (len(offs) + nchunk - 1) // nchunk
             for k in range(0, len(offs), step):
                 jobs.append((rel, offs[k:k + step], ctx.seed * 1000003 + k, rate, 400, k == 0))
-        jobs.sort(key=lambda j: -len(j[1]) * (1 + os.path.getsize(os.path.join(core.REPO, j[0])) // 20000))
+        jobs.sort(key=lambda j: -len(j[1]) * (1 + sizes[j[0]] // 20000))
         file_results = pool.map(_work_offsets, jobs, chunksize=1)
     _t('offsets of real listings parsed')
     # history clause, other direction: the same parses as the FIRST thing a process does (pyparsing learns the
@@ -1011,10 +1215,12 @@ def run_c11(ctx):
         file_results += pool.map(_work_offsets, fresh, chunksize=1)
     _t('fresh-process parses')
 
+    n_model_parse = 0
+    pending = []            # (key, layout suffix, what, case): reported at the end, see below
     for r in model_results:
         n_states += r['n']
-        for key, what, case in r['findings']:
-            ctx.violation(key, what, case, module='conf_t4scan')
+        n_model_parse += r['nparse']
+        pending += r['findings']
         for d in r['drift']:
             n_drift += 1
             if n_drift <= 6:
@@ -1022,7 +1228,8 @@ def run_c11(ctx):
         for d in r['distinct']:
             if 'init' in d[0]:
                 ctx.distinct(('model',) + tuple(d))
-    ctx.count(evaluations=n_states, traces=n_states)
+    ctx.count(evaluations=n_model_parse, traces=n_states)
+    _t('model: %d states, %d listings, %d Parser/parse calls' % (n_states, len(by_full), n_model_parse))
     ctx.sample(dict(source='model', replayed_states=n_states, listings=len(by_full)))
 
     # ---- TLC validates the observations of the real listings
@@ -1102,14 +1309,20 @@ def run_c11(ctx):
             if o['outcome'] == 'Other' and (fno, cid) not in bad:
                 raise tlc.MachineryError('T4ScanTrace accepted outcome Other (%s offset %d)' % (d['name'], o['off']))
             if fnd:
-                ctx.violation(fnd[0], fnd[1] + ' [%s offset %d]' % (d['name'], o['off']),
-                              dict(source='file', file=d['name'], offset=o['off']), module='conf_t4scan')
+                pending.append((fnd[0], '/para-editions-synth' if d['name'].startswith(SYNTH) else '',
+                                fnd[1] + ' [%s offset %d]' % (d['name'], o['off']),
+                                dict(source='file', file=d['name'], offset=o['off'])))
             elif (fno, cid) in drift and fno not in nofinal and shown < 8:
                 shown += 1
                 ctx.drift('%s offset %d: observation is neither T4Scan with the unterminated line dropped nor interpreted: %s'
                           % (d['name'], o['off'], {k: o[k] for k in ('pos', 'part', 'outcome', 'keys', 'eds')}))
             if o['pos'] > 0 and any(l['kind'] == 'init' and l['id'] <= o['nl'] for l in d['lines'][:o['pos']]):
                 ctx.distinct(('file', d['name'], o['pos'], json.dumps(o['part']), o['outcome'], json.dumps(o['eds'])))
+    # the layout suffix (a listing layout of parallel jobs, a synthetic multi-edition listing) is part of the key only
+    # when the finding class shows on those layouts alone: it then names what is needed to expose it
+    plain_keys = set(k for k, suffix, _, _ in pending if not suffix)
+    for key, suffix, what, case in pending:
+        ctx.violation(key if key in plain_keys else key + suffix, what, case, module='conf_t4scan')
     n_prefixes = sum(pf['n'] for pf in per_file.values())
     ctx.count(evaluations=sum(pf['nparse'] for pf in per_file.values()), traces=n_prefixes)
     if n_amb:
@@ -1123,7 +1336,10 @@ def run_c11(ctx):
         'prefix, every cut class); %d states replayed on the implementation. Real listings: %d prefixes (%d listings; every '
         'byte offset of the %d listings <= %d bytes, seeded offsets inside interpreted lines of the others), '
         '%d distinct observations validated by TLC, %d rejected.'
-        % (n_states, n_prefixes, len(per_file), sum(1 for s, _ in files if s <= small_limit), small_limit, n_cases, len(bad)))
+        % (n_states, n_prefixes, len(per_file), sum(1 for s, r in files if s <= small_limit and not r.startswith(SYNTH)),
+           small_limit, n_cases, len(bad))
+        + ' %d of the listings are synthetic parallel-job listings with 2-3 editions (per-edition "number of batches '
+          'used" counts uniform / last block discarding / seeded).' % (len(files) - n_shipped))
 
 
 def _final_from(by_full, full, s):
